@@ -697,6 +697,8 @@ func evMatches(q string, e event) bool {
 	switch q {
 	case "all", "asc":
 		return true
+	case "tb": // time-bounded search of the access-sequence stream
+		return e.TS >= tbLo && e.TS <= tbHi
 	case "term":
 		return e.Word == "alpha"
 	case "msg":
@@ -778,7 +780,7 @@ func judgeQuery(q qres) qOutcome {
 	o := qOutcome{Missing: map[string]bool{}, ColMiss: map[string]bool{}, Err: q.Err}
 	us := units()
 	switch q.Name {
-	case "all", "asc", "term", "msg", "num":
+	case "all", "asc", "term", "msg", "num", "tb":
 		want := map[string]string{}
 		owner := map[string]string{}
 		for _, u := range us {
@@ -1060,6 +1062,15 @@ func runE2E(cfg vhlib.Config, sum *vhlib.Summary, r *vhlib.Rng) {
 	sum.Count("e2e/baseline_ok")
 
 	// ---- the readers of the unchecksummed files on the store's real files ----
+	if onlySeq {
+		content := map[string][]byte{}
+		for _, f := range files {
+			b, _ := os.ReadFile(filepath.Join(lanes[0].pristine, f.Rel))
+			content[f.Rel] = b
+		}
+		runSeq(cfg, sum, r.Fork(), lanes, files, content)
+		return
+	}
 	runDecoders(cfg, sum, r.Fork(), lanes[0].pristine, files)
 
 	// ---- real column files vs the model (layout + reads) ----
@@ -1576,6 +1587,9 @@ func runE2E(cfg vhlib.Config, sum *vhlib.Summary, r *vhlib.Rng) {
 			sum.Sample(map[string]interface{}{"stream": "e2e", "mutation": m.String(), "segment": f.Seg, "outcome": outcome, "details": details})
 		}
 	}
+
+	// ---- access sequences on a damaged block-summary file (the lazily loaded shared search metadata) ----
+	runSeq(cfg, sum, r.Fork(), lanes, files, content)
 }
 
 func keys(m map[string]bool) []string {
@@ -1586,6 +1600,9 @@ func keys(m map[string]bool) []string {
 	sort.Strings(out)
 	return out
 }
+
+// C18_ONLY=seq: run only the access-sequence stream (exploration aid, never set by ./check)
+var onlySeq = os.Getenv("C18_ONLY") == "seq"
 
 func main() {
 	if len(os.Args) >= 3 && os.Args[1] == "worker" {
@@ -1599,6 +1616,13 @@ func main() {
 		case "decode":
 			from, _ := strconv.Atoi(os.Args[6])
 			workerDecode(os.Args[3], os.Args[4], os.Args[5], from)
+		case "seq":
+			if len(os.Args) > 6 {
+				if n, err := strconv.Atoi(os.Args[6]); err == nil && n > 0 {
+					queryTimeout = time.Duration(n) * time.Second
+				}
+			}
+			workerSeq(os.Args[3], os.Args[4], os.Args[5])
 		case "query":
 			if len(os.Args) > 6 {
 				if n, err := strconv.Atoi(os.Args[6]); err == nil && n > 0 {
@@ -1621,11 +1645,19 @@ func main() {
 		"legacy files, API-misuse files, and the real column files of the store; mutations: none, every truncation length, single-byte modifications " +
 		"(quick: every chunk-header byte + random positions; thorough: every position x 5 values). " +
 		"e2e stream: one case = one mutation (byte xor 0xFF / xor one bit / set 0 / truncation) of one stored file of a 2-log-segment + 1-metrics-segment store, " +
-		"8 queries in a fresh worker process. non-trivial = the mutation changes the file; distinct by (file, mutation, read)")
+		"8 queries in a fresh worker process. seq stream: one case = one damaged block-summary file (.bsu: truncations at / inside every record, header fields) + one seeded SEQUENCE of 5-9 accesses " +
+		"of different kinds (persistent-query path, bulk timestamp / record readers, GetLoadSsm, memory rebalance evict / load, ordinary, repeated and time-bounded queries; every kind first in turn) in ONE worker process. " +
+		"non-trivial = the mutation changes the file; distinct by (file, mutation, read / access sequence)")
 	r := vhlib.NewRng(cfg.Seed)
-	runDirect(cfg, sum, r.Fork())
-	runReaders(cfg, sum, r.Fork())
-	runPoolTrace(cfg, sum, r.Fork())
+	if onlySeq { // exploration: only the access-sequence stream (the forks keep the random streams aligned)
+		r.Fork()
+		r.Fork()
+		r.Fork()
+	} else {
+		runDirect(cfg, sum, r.Fork())
+		runReaders(cfg, sum, r.Fork())
+		runPoolTrace(cfg, sum, r.Fork())
+	}
 	runE2E(cfg, sum, r.Fork())
 	sum.Write(cfg.Out)
 }
@@ -1849,6 +1881,10 @@ func runDecoders(cfg vhlib.Config, sum *vhlib.Summary, r *vhlib.Rng, pristine st
 				bl = append(bl, fmt.Sprintf("(%d, %s)", b.Num, vhlib.CoqList(cs)))
 			}
 			obs[dec] = append(obs[dec], fmt.Sprintf("(%s, (%d, (%s, %s)))", vhlib.CoqBytes(c.Data), code, vhlib.CoqList(l), vhlib.CoqList(bl)))
+			if code <= 1 {
+				// the reader's summaries next to an error are part of its result (what a caller could cache)
+				obs["bsup"] = append(obs["bsup"], fmt.Sprintf("(%s, (%d, %s))", vhlib.CoqBytes(c.Data), code, vhlib.CoqList(l)))
+			}
 		case "ri":
 			var l []string
 			for _, e := range o.Ranges {
@@ -1874,7 +1910,8 @@ func runDecoders(cfg vhlib.Config, sum *vhlib.Summary, r *vhlib.Rng, pristine st
 		"ri":    "list (list N * (N * list (list N * option (N * N * N))))",
 		"bloom": "list (list N * (N * (N * N * N)))",
 	}
-	for _, dec := range []string{"mnm", "mbsu", "bsu", "ri", "bloom"} {
+	typ["bsup"] = "list (list N * (N * list (N * N * N)))"
+	for _, dec := range []string{"mnm", "mbsu", "bsu", "bsup", "ri", "bloom"} {
 		l := obs[dec]
 		const per = 120
 		for s := 0; s*per < len(l); s++ {
@@ -1883,7 +1920,11 @@ func runDecoders(cfg vhlib.Config, sum *vhlib.Summary, r *vhlib.Rng, pristine st
 				hi = len(l)
 			}
 			defs := "Definition cases : " + typ[dec] + " := " + vhlib.CoqListNL(l[s*per:hi]) + ".\n"
-			sum.WriteCaseFile(cfg.Out, fmt.Sprintf("cases_dec_%s_%d", dec, s), "From SigM Require Import Base MetaDecoders MetaDecodersCheck.\n", defs, "check_"+dec+" cases", hi-s*per)
+			imports, chk := "From SigM Require Import Base MetaDecoders MetaDecodersCheck.\n", "check_"+dec
+			if dec == "bsup" {
+				imports, chk = "From SigM Require Import Base MetaDecoders MetaDecodersCheck MetaCache MetaCacheCheck.\n", "check_bsu_partial"
+			}
+			sum.WriteCaseFile(cfg.Out, fmt.Sprintf("cases_dec_%s_%d", dec, s), imports, defs, chk+" cases", hi-s*per)
 		}
 	}
 }
